@@ -2,7 +2,7 @@
    the verified-oracle test of whole compressor runs (definitions only). *)
 From Coq Require Import List ZArith Bool Arith QArith Qabs.
 Import ListNotations.
-From FV.C20 Require Import Model.
+From FV.C20 Require Import Model ModelReindex.
 Open Scope Z_scope.
 
 Definition face_eqb (f g : face) : bool := if feq_dec f g then true else false.
@@ -72,3 +72,20 @@ Definition total_kept (tol : Q) (x y : list Q) : bool := Qclose tol (sumQ x) (su
 
 (* volume of the cells with the given indices *)
 Definition cellsvol (tbl : list (V3 Q)) (cells : list poly) : Q := volQ tbl cells.
+
+(* ---------------------------------------------------------------- reindex *)
+Definition polys_eqb (a b : list poly) : bool :=
+  if list_eq_dec (list_eq_dec feq_dec) a b then true else false.
+Definition zlist_eqb (a b : list Z) : bool := if list_eq_dec Z.eq_dec a b then true else false.
+Definition v3close (tol : Q) (u v : V3 Q) : bool :=
+  let '(a, b, c) := u in let '(d, e, f) := v in Qclose tol a d && Qclose tol b e && Qclose tol c f.
+Definition chk_reindex (tol : Q) (ps : list poly) (conv : list Z) (pos : list (V3 Q))
+           (faces' : list poly) (conv' : list Z) (pos' : list (V3 Q)) : bool :=
+  let r := reindex ps conv in
+  polys_eqb (r_faces r) faces' && zlist_eqb (r_conv r) conv' &&
+  (r_K r =? Z.of_nat (length pos')) &&
+  forallb (fun k => v3close tol (recalc_pos QOps (pos_of q0 pos) (r_conv r) k) (znth q0 pos' k))
+          (zrange (r_K r)).
+(* hypotheses of C20_reindex_exact on this input *)
+Definition reindex_hyps (ps : list poly) (conv : list Z) : bool :=
+  forallb (fun v => (0 <=? v) && (v <? Z.of_nat (length conv)) && (znth v conv v =? v)) (all_nodes ps).
